@@ -74,21 +74,24 @@ def re_escape(b):
     return out
 
 
-def gen_param(rng, inp_name, pool):
-    """inp_name: b'name' / b'subtag' / other"""
+def gen_param(rng, inp_name, pool, bad):
+    """inp_name: b'name' / b'subtag' / other; bad: scale of the probability of invalid fragments"""
     subj = [(n["tag"] if inp_name == b"subtag" else n["name"]) for n in pool] or [pick(rng, NAMES)]
     r = rng.random()
-    if r < 0.34:
+    if r < 0.07 * bad:
+        return {"k": pick(rng, BAD_NAME_KEYS), "v": pick(rng, subj)}
+    r = rng.random()
+    if r < 0.38:
         v = pick(rng, subj) if rng.random() < 0.7 else pick(rng, NAMES + TAGS)
         if rng.random() < 0.1:
             v = v + b" "
         return {"k": b"", "v": v}
-    if r < 0.58:
+    if r < 0.64 and (inp_name != b"subtag" or rng.random() < 0.25 * bad):
         v = substr(rng, pick(rng, subj)) if rng.random() < 0.7 else pick(rng, NAMES)
         return {"k": b"keyword", "v": v}     # invalid on subtag
-    if r < 0.86:
+    if r < 0.94:
         q = rng.random()
-        if q < 0.12:
+        if q < 0.12 * bad:
             v = pick(rng, BAD_REGEXES)
         elif q < 0.55:
             v = pick(rng, REGEXES)
@@ -99,40 +102,63 @@ def gen_param(rng, inp_name, pool):
         else:
             v = re_escape(pick(rng, subj)) + b"|" + re_escape(pick(rng, subj))
         return {"k": b"regex", "v": v}
-    if r < 0.93:
-        return {"k": pick(rng, BAD_NAME_KEYS), "v": pick(rng, subj)}
-    return {"k": pick(rng, [b"", b"keyword", b"regex"]), "v": pick(rng, NAMES + TAGS + REGEXES)}
+    return {"k": pick(rng, [b"", b"keyword", b"regex"] if bad else [b"", b"regex"]), "v": pick(rng, NAMES + TAGS + REGEXES)}
 
 
-def gen_func(rng, pool):
+def gen_func(rng, pool, bad, friendly):
+    for _ in range(50):
+        r = rng.random()
+        if r < 0.08 * bad:
+            name = pick(rng, BAD_INPUTS)
+        elif r < 0.6:
+            name = b"name"
+        else:
+            name = b"subtag"
+        k = pick(rng, [0, 1, 1, 1, 2, 2, 3, 4])
+        f = {"name": name, "not": rng.random() < 0.3, "params": [gen_param(rng, name, pool, bad) for _ in range(k)]}
+        if not friendly or text_func(f) is not None:
+            return f
+    return {"name": b"name", "not": False, "params": [{"k": b"", "v": b"a"}]}
+
+
+def gen_anno(rng, bad, friendly):
+    for _ in range(50):
+        a = gen_anno1(rng, bad)
+        if not friendly or all(text_param(p) is not None for p in a):
+            return a
+    return []
+
+
+def gen_anno1(rng, bad):
     r = rng.random()
-    if r < 0.52:
-        name = b"name"
-    elif r < 0.92:
-        name = b"subtag"
-    else:
-        name = pick(rng, BAD_INPUTS)
-    k = pick(rng, [0, 1, 1, 1, 2, 2, 3, 4])
-    return {"name": name, "not": rng.random() < 0.3, "params": [gen_param(rng, name, pool) for _ in range(k)]}
-
-
-def gen_anno(rng):
+    if r < 0.16 * bad:
+        if r < 0.08 * bad:
+            return [{"k": b"add_latency", "v": pick(rng, DURS_BAD)}]
+        a = [{"k": pick(rng, ANNO_BAD_KEYS), "v": pick(rng, DURS_OK)}]
+        if rng.random() < 0.5:
+            a.insert(rng.randint(0, 1), {"k": b"add_latency", "v": pick(rng, DURS_OK)})
+        return a
     r = rng.random()
     if r < 0.45:
         return []
-    if r < 0.75:
-        return [{"k": b"add_latency", "v": pick(rng, DURS_OK)}]
     if r < 0.85:
-        return [{"k": b"add_latency", "v": pick(rng, DURS_OK + DURS_BAD)} for _ in range(rng.randint(2, 3))]
-    if r < 0.93:
-        return [{"k": b"add_latency", "v": pick(rng, DURS_BAD)}]
-    a = [{"k": pick(rng, ANNO_BAD_KEYS), "v": pick(rng, DURS_OK)}]
-    if rng.random() < 0.5:
-        a.insert(rng.randint(0, 1), {"k": b"add_latency", "v": pick(rng, DURS_OK)})
-    return a
+        return [{"k": b"add_latency", "v": pick(rng, DURS_OK)}]
+    return [{"k": b"add_latency", "v": pick(rng, DURS_OK + (DURS_BAD if rng.random() < bad else []))} for _ in range(rng.randint(2, 3))]
 
 
-def gen_policy(rng, pool):
+def gen_policy(rng, pool, friendly):
+    for _ in range(50):
+        p = gen_policy1(rng, pool)
+        if not friendly:
+            return p
+        if p["type"] == "string" and p["s"] and text_value(p["s"]) is not None:
+            return p
+        if p["type"] == "funcs" and p["fs"] and all(text_func(f) is not None for f in p["fs"]):
+            return p
+    return {"type": "string", "s": b"min", "fs": []}
+
+
+def gen_policy1(rng, pool):
     r = rng.random()
     if r < 0.3:
         return {"type": "string", "s": pick(rng, POLICIES) if rng.random() < 0.75 else pick(rng, BAD_POLICIES), "fs": []}
@@ -150,15 +176,17 @@ def gen_policy(rng, pool):
             else:
                 ps = [{"k": b"", "v": pick(rng, ints)} for _ in range(rng.randint(2, 3))]
             return {"name": name, "not": rng.random() < 0.12, "params": ps}
-        if r < 0.7:
+        if r < 0.6:
             return {"type": "func", "s": b"", "fs": [pf()]}
-        k = pick(rng, [0, 1, 1, 1, 2, 3])
+        k = pick(rng, [0, 1, 1, 1, 1, 2, 3])
         return {"type": "funcs", "s": b"", "fs": [pf() for _ in range(k)]}
     return {"type": "other", "s": b"", "fs": []}
 
 
 def gen_case(rng, big=False):
     pool = gen_pool(rng, big)
+    bad = pick(rng, [0, 0, 0.3, 0.3, 1])          # share of invalid fragments in this definition
+    friendly = rng.random() < 0.5                 # every string expressible as configuration text
     r = rng.random()
     if r < 0.08:
         nl = 0
@@ -166,15 +194,15 @@ def gen_case(rng, big=False):
         nl = pick(rng, [1, 1, 1, 2, 2, 3, 4, 6 if big else 3])
     lines = []
     for _ in range(nl):
-        k = pick(rng, [1, 1, 1, 2, 2, 3]) if rng.random() > 0.03 else 0
-        lines.append([gen_func(rng, pool) for _ in range(k)])
-    annos = [gen_anno(rng) for _ in range(nl)]
-    if rng.random() < 0.03:
+        k = pick(rng, [1, 1, 1, 2, 2, 3]) if (friendly or rng.random() > 0.03) else 0
+        lines.append([gen_func(rng, pool, bad, friendly) for _ in range(k)])
+    annos = [gen_anno(rng, bad, friendly) for _ in range(nl)]
+    if rng.random() < 0.03 * bad:
         if annos and rng.random() < 0.5:
             annos.pop()
         else:
-            annos.append(gen_anno(rng))
-    c = {"pool": pool, "lines": lines, "annos": annos, "policy": gen_policy(rng, pool)}
+            annos.append(gen_anno(rng, bad, friendly))
+    c = {"pool": pool, "lines": lines, "annos": annos, "policy": gen_policy(rng, pool, friendly)}
     t = render_text(c, rng)
     if t is not None:
         c["text"] = t
